@@ -281,24 +281,17 @@ func runC20(p *Prog, r *Report, tier string) {
 				"on every edge into the slice bound the count is len(flowRecords) or proven 0 <= count <= len(flowRecords) by the branch conditions", "the count used in the slice bound is not clamped to [0, len(flowRecords)]: "+why+" (a large or negative count panics or returns the wrong window)", true)
 		}
 	}
-	// the three store functions keep no state of their own besides the store: an answer computed from anything remembered
-	// across requests (a cached body, a remembered length) can be stale although the store moved on
-	for _, fn := range []*ssa.Function{add, q, rs} {
-		if fn == nil {
-			continue
-		}
+	// the query answers from the store alone: nothing remembered across requests (a cached body, a remembered length) may
+	// reach the response, or the answer can be stale although the store moved on. A pure counter (x = x + 1) is fine.
+	{
 		nG := 0
-		eachInstr(fn, func(in ssa.Instruction) {
-			var gl *ssa.Global
-			switch x := in.(type) {
-			case *ssa.Store:
-				gl, _ = x.Addr.(*ssa.Global)
-			case *ssa.UnOp:
-				if x.Op == token.MUL {
-					gl, _ = x.X.(*ssa.Global)
-				}
+		eachInstr(q, func(in ssa.Instruction) {
+			u, ok := in.(*ssa.UnOp)
+			if !ok || u.Op != token.MUL {
+				return
 			}
-			if gl == nil || gl.Pkg == nil || gl.Pkg.Pkg.Path() != modPath+"/cmd/collector" {
+			gl, ok := u.X.(*ssa.Global)
+			if !ok || gl.Pkg == nil || gl.Pkg.Pkg.Path() != modPath+"/cmd/collector" {
 				return
 			}
 			nG++
@@ -306,14 +299,33 @@ func runC20(p *Prog, r *Report, tier string) {
 			case "flowRecords", "mutex", "flowTextSeparator":
 				return
 			}
-			_, isStore := in.(*ssa.Store)
-			if !isStore && !globalWrittenOutsideInit(p, gl) {
+			if !globalWrittenOutsideInit(p, gl) {
 				return // a constant-like configuration variable
 			}
-			r.Violation("R-OWNER.stateless", fmt.Sprintf("%s: uses package variable %s", fnKey(fn), gl.Name()), p.instrPos(in),
-				"a store function reads or writes mutable package state other than the store itself: what it answers or keeps then depends on earlier requests, not only on the messages received (e.g. a cached response that is not invalidated by every arrival and reset)")
+			counterOnly := len(refs(u)) > 0
+			for _, ref := range refs(u) {
+				b, isB := ref.(*ssa.BinOp)
+				if !isB || (b.Op != token.ADD && b.Op != token.SUB) {
+					if _, isDbg := ref.(*ssa.DebugRef); !isDbg {
+						counterOnly = false
+					}
+					continue
+				}
+				for _, r2 := range refs(b) {
+					if st, ok := r2.(*ssa.Store); !ok || st.Addr != ssa.Value(gl) {
+						if _, isDbg := r2.(*ssa.DebugRef); !isDbg {
+							counterOnly = false
+						}
+					}
+				}
+			}
+			if counterOnly {
+				return
+			}
+			r.Violation("R-OWNER.stateless", fmt.Sprintf("%s: reads package variable %s", fnKey(q), gl.Name()), p.instrPos(in),
+				"the query handler reads mutable package state other than the store: what it answers then depends on earlier requests, not only on the messages received (e.g. a cached response that is not invalidated by every arrival and reset)")
 		})
-		r.Check(nG > 0, "R-OWNER.stateless", fnKey(fn)+": package variables used", p.pos(fn.Pos()), "only the store, its mutex and constants", "no package variable used at all: the store anchor is lost", true)
+		r.Check(nG > 0, "R-OWNER.stateless", fnKey(q)+": package variables read", p.pos(q.Pos()), "only the store, its mutex and constants (pure counters excepted)", "no package variable read at all: the store anchor is lost", true)
 	}
 	// both formats answer with the window: the JSON body is built from it and the text loop ranges over it
 	if qslice != nil {
